@@ -144,3 +144,90 @@ Theorem getfenv_reads_it : forall n fr r rest s,
   builtin_call (S n) fr BGetFenv (VFun r :: rest) s = Ret [VTab (c_fenv (clo_of s r))] s.
 Proof. exact getfenv_lemma. Qed.
 Print Assumptions getfenv_reads_it.
+
+(* ---------------------------------------------------------------------------------------------
+   M-VM (coq/VMX): the upvalue mechanism of the bytecode VM (L.uvcache, findUpvalue,
+   closeUpvalues of _state.go), for arbitrary upvalue heaps, lists and registries. *)
+From GL Require Import VMX.Machine VMX.Step VMX.Spec.
+From GL Require VMX.UpvalFacts VMX.FrameFacts.
+
+(* findUpvalue and closeUpvalues keep "valid, open, strictly increasing register indices" *)
+Theorem uvcache_sorted_inv : forall ops s,
+  state_cache_inv s -> state_cache_inv (fold_left (fun s o => apply_uvop o s) ops s).
+Proof. exact UpvalFacts.uvcache_sorted_inv. Qed.
+Print Assumptions uvcache_sorted_inv.
+
+Theorem findUpvalue_inv : forall idx s,
+  state_cache_inv s ->
+  let '(r, s') := findUpvalue_st idx s in
+  state_cache_inv s' /\ In r (vuvcache s') /\
+  uv_index (uvat (vuvs s') r) = idx /\ uv_closed (uvat (vuvs s') r) = false /\
+  vreg s' = vreg s /\ vstack s' = vstack s /\
+  (forall u, In u (vuvcache s) -> In u (vuvcache s') /\ uvat (vuvs s') u = uvat (vuvs s) u).
+Proof. exact UpvalFacts.findUpvalue_inv. Qed.
+Print Assumptions findUpvalue_inv.
+
+(* two captures of one register return the same upvalue *)
+Theorem findUpvalue_shared : forall idx s,
+  state_cache_inv s ->
+  let '(r1, s1) := findUpvalue_st idx s in
+  findUpvalue_st idx s1 = (r1, s1).
+Proof. exact UpvalFacts.findUpvalue_shared. Qed.
+Print Assumptions findUpvalue_shared.
+
+Theorem findUpvalue_shared_interleaved : forall idx idx' s,
+  state_cache_inv s ->
+  let '(r1, s1) := findUpvalue_st idx s in
+  let '(_, s2) := findUpvalue_st idx' s1 in
+  fst (findUpvalue_st idx s2) = r1.
+Proof. exact UpvalFacts.findUpvalue_shared_interleaved. Qed.
+Print Assumptions findUpvalue_shared_interleaved.
+
+Theorem close_ge : forall idx s,
+  state_cache_inv s ->
+  let s' := closeUpvalues_st idx s in
+  state_cache_inv s' /\
+  (forall u, In u (vuvcache s') -> uv_index (uvat (vuvs s') u) < idx /\ uv_closed (uvat (vuvs s') u) = false) /\
+  (forall u, In u (vuvcache s) -> uv_index (uvat (vuvs s) u) >= idx ->
+      uvat (vuvs s') u = mkUv (uv_index (uvat (vuvs s) u)) true (rd (arr (vreg s)) (uv_index (uvat (vuvs s) u)))
+                              (uv_thread (uvat (vuvs s) u))) /\
+  (forall u, ~ (In u (vuvcache s) /\ uv_index (uvat (vuvs s) u) >= idx) -> uvat (vuvs s') u = uvat (vuvs s) u) /\
+  vreg s' = vreg s /\ vstack s' = vstack s.
+Proof. exact UpvalFacts.close_ge. Qed.
+Print Assumptions close_ge.
+
+Theorem open_alias : forall r u, uv_closed u = false -> uv_read r u = rd (arr r) (uv_index u).
+Proof. exact UpvalFacts.open_alias. Qed.
+Print Assumptions open_alias.
+
+Theorem no_dangling_after_close : forall idx s u,
+  state_cache_inv s -> In u (vuvcache (closeUpvalues_st idx s)) ->
+  uv_index (uvat (vuvs (closeUpvalues_st idx s)) u) < idx.
+Proof. exact UpvalFacts.no_dangling_after_close. Qed.
+Print Assumptions no_dangling_after_close.
+
+Theorem no_dangling_after_return : forall cf RA B base s b s' u,
+  vstack s <> [] -> state_cache_inv s -> not_coroutine_bottom s ->
+  do_return cf RA B base s = VRet b s' ->
+  In u (vuvcache s') -> uv_index (uvat (vuvs s') u) < fr_localbase cf.
+Proof. exact FrameFacts.no_dangling_after_return. Qed.
+Print Assumptions no_dangling_after_return.
+
+Theorem no_dangling_after_tailcall : forall cf callable lv meta nargs RA s b s' u,
+  state_cache_inv s ->
+  (vdo _ <- closeUpvalues (fr_localbase cf); tailcall_lua cf callable lv meta nargs RA) s = VRet b s' ->
+  state_cache_inv s' /\
+  (In u (vuvcache s') -> uv_index (uvat (vuvs s') u) < fr_localbase cf).
+Proof. exact FrameFacts.no_dangling_after_tailcall. Qed.
+Print Assumptions no_dangling_after_tailcall.
+
+(* PCall's recovery (pcall and xpcall alike): nothing open is left over the unwound registers *)
+Theorem pcall_recovery_dangle_free : forall sp base s,
+  state_cache_inv s ->
+  let s' := unwind sp base s in
+  state_cache_inv s' /\
+  rtop (vreg s') = base /\
+  (length (vstack s') <= length (vstack s))%nat /\
+  (forall u, In u (vuvcache s') -> uv_index (uvat (vuvs s') u) < base /\ uv_closed (uvat (vuvs s') u) = false).
+Proof. exact FrameFacts.pcall_recovery_dangle_free. Qed.
+Print Assumptions pcall_recovery_dangle_free.
